@@ -73,24 +73,33 @@ fn check_verdict(c: &TorCase, obs: &mut Obs) -> Result<(), String> {
     let v = verdict(x, false);
     // a second evaluation in the same process (simplification iterates over a HashSet)
     let v2 = verdict(x, true);
-    ensure!(v2.class() == v.class(), "two evaluations of is_euclidean({}) give {:?} and {:?}", x.text(), v, v2);
+    ensure!(v2.class() == v.class(), "two evaluations of is_euclidean({}) give {:?} and {:?}", x.short(), v, v2);
     let mut variant = x.renumbered(&perm_from_swaps(x.size, &c.swaps));
     if c.dual {
         variant = variant.dual();
     }
     let vv = verdict(&variant, c.swaps.len() % 2 == 1);
-    ensure!(vv.class() == v.class(), "verdict depends on the numbering / dualisation: {:?} for {}, {:?} for {}", v, x.text(), vv, variant.text());
-    if !c.known.is_empty() {
-        ensure!(v == Verdict::Yes, "{} is euclidean ({}), but is_euclidean says {:?}", x.text(), c.known, v);
-        obs.class("known-euclidean corpus");
+    ensure!(vv.class() == v.class(), "verdict depends on the numbering / dualisation: {:?} for {}, {:?} for {}", v, x.short(), vv, variant.short());
+    if c.known_euclidean() {
+        if c.kind == "weak" {
+            ensure!(!matches!(v, Verdict::No(_)), "{} is euclidean ({}), but is_euclidean says {:?}", x.short(), c.known, v);
+            obs.class("known-euclidean manifold (verdict must not be no)");
+        } else {
+            ensure!(v == Verdict::Yes, "{} is euclidean ({}), but is_euclidean says {:?}", x.short(), c.known, v);
+            obs.class("known-euclidean corpus");
+        }
+    }
+    if c.known_not_euclidean() {
+        ensure!(v != Verdict::Yes, "{} is not euclidean ({}), but is_euclidean says yes", x.short(), c.known);
+        obs.class("known non-euclidean manifold");
     }
     // certificate for yes
     if v == Verdict::Yes {
-        let cov = ptc(x, false)?.ok_or_else(|| format!("verdict yes for {} but no pseudo-toroidal cover can be re-derived", x.text()))?.1;
+        let cov = ptc(x, false)?.ok_or_else(|| format!("verdict yes for {} but no pseudo-toroidal cover can be re-derived", x.short()))?.1;
         // ptc() has checked: covering, oriented, branch-free, H1 = Z^3. Subgroup counts of Z^3: 1, 7, 13
         let fg = own_fundamental_group(&cov);
         match class_counts(&fg.pres, 3) {
-            Some(counts) => ensure!(counts == vec![1, 7, 13], "verdict yes for {}, but the group of its pseudo-toroidal cover has {:?} conjugacy classes of subgroups of index 1, 2, 3 (Z^3 has 1, 7, 13)", x.text(), counts),
+            Some(counts) => ensure!(counts == vec![1, 7, 13], "verdict yes for {}, but the group of its pseudo-toroidal cover has {:?} conjugacy classes of subgroups of index 1, 2, 3 (Z^3 has 1, 7, 13)", x.short(), counts),
             None => obs.class("certificate: subgroup counts skipped (presentation too large after simplification)"),
         }
         obs.class("yes with certificate");
@@ -106,7 +115,7 @@ fn check_verdict(c: &TorCase, obs: &mut Obs) -> Result<(), String> {
                 }
                 let vy = verdict(&y, n % 2 == 0);
                 let contradiction = matches!((&v, &vy), (Verdict::Yes, Verdict::No(_)) | (Verdict::No(_), Verdict::Yes));
-                ensure!(!contradiction, "{} gets {:?}, its {}-sheeted cover {} gets {:?}", x.text(), v, y.size / x.size, y.text(), vy);
+                ensure!(!contradiction, "{} gets {:?}, its {}-sheeted cover {} gets {:?}", x.short(), v, y.size / x.size, y.short(), vy);
                 obs.class("cover verdict compared");
             }
         }
@@ -131,12 +140,62 @@ pub const SUB_VERDICT: Sub<TorCase> = Sub {
 pub fn corpus_cases(max2d: usize) -> Vec<TorCase> {
     let mut v = vec![];
     for (k, s) in corpus_lit().into_iter().enumerate() {
-        v.push(TorCase { swaps: vec![(0, (k as u32 + 1).wrapping_mul(0x3000_0000))], dual: k % 2 == 1, ds: s, known: "literature corpus".into() });
+        v.push(TorCase { swaps: vec![(0, (k as u32 + 1).wrapping_mul(0x3000_0000))], dual: k % 2 == 1, ds: s, known: "literature corpus".into(), kind: String::new() });
     }
     for (k, (s, why)) in products(max2d).into_iter().enumerate() {
-        v.push(TorCase { swaps: vec![((k as u32).wrapping_mul(0x2345_6789), (k as u32 + 1).wrapping_mul(0x3000_0001))], dual: k % 2 == 1, ds: s, known: why });
+        v.push(TorCase { swaps: vec![((k as u32).wrapping_mul(0x2345_6789), (k as u32 + 1).wrapping_mul(0x3000_0001))], dual: k % 2 == 1, ds: s, known: why, kind: String::new() });
     }
     v
+}
+
+/// deterministic sample of quotients of the cubic tiling by space groups (G-CUBIC): known euclidean
+pub fn cubic_cases(count: usize, max_n: usize) -> Vec<TorCase> {
+    use rayon::prelude::*;
+    (0..count)
+        .into_par_iter()
+        .map(|k| {
+            let mut h = (k as u64 + 1).wrapping_mul(0x9e37_79b9_7f4a_7c15);
+            let mut next = || {
+                h ^= h >> 29;
+                h = h.wrapping_mul(0xbf58_476d_1ce4_e5b9);
+                h ^= h >> 32;
+                (h & 0xffff_ffff) as u32
+            };
+            let n = if max_n >= 4 && k % 11 == 10 { 4 } else if max_n >= 3 && k % 5 == 4 { 3 } else { 2 };
+            let ng = 1 + (next() % 3) as usize;
+            let codes: Vec<u32> = (0..ng).map(|_| next()).collect();
+            let (ds, text) = crate::gen::cubic::quotient_by_codes(n, &codes);
+            TorCase { swaps: vec![(next(), next()), (next(), next())], dual: k % 2 == 1, ds, known: text, kind: String::new() }
+        })
+        .collect()
+}
+
+/// proptest strategy over G-CUBIC: box size, 1..=3 generating isometries, renumbering, dual
+pub fn cubic_strategy(max_n: usize) -> impl Strategy<Value = TorCase> {
+    (0usize..10, prop::collection::vec(any::<u32>(), 1..=3), prop::collection::vec((any::<u32>(), any::<u32>()), 0..6), any::<bool>()).prop_map(move |(nn, codes, swaps, dual)| {
+        let n = if max_n >= 4 && nn == 9 { 4 } else if max_n >= 3 && nn >= 7 { 3 } else { 2 };
+        let (ds, text) = crate::gen::cubic::quotient_by_codes(n, &codes);
+        TorCase { ds, swaps, dual, known: text, kind: String::new() }
+    })
+}
+
+/// closed 3-manifolds of known topology (G-MANIFOLD): connected sums of cubical T^3, S^2 x S^1, S^3, RP^3
+pub fn manifold_cases(picks: u32, large: bool) -> Vec<TorCase> {
+    use crate::gen::manifold::{corpus, Known};
+    let mut out = vec![];
+    for pick in 0..picks {
+        for (k, (ds, name, known)) in corpus(pick, large).into_iter().enumerate() {
+            if pick > 0 && k < 3 {
+                continue; // the three building blocks do not depend on `pick`
+            }
+            let kind = match known {
+                Known::Torus => "weak",
+                Known::NotFlat => "notflat",
+            };
+            out.push(TorCase { swaps: vec![(pick.wrapping_mul(0x9e37_79b9), (k as u32 + 1).wrapping_mul(0x85eb_ca6b))], dual: (k + pick as usize) % 2 == 1, ds, known: format!("{} (gluing choice {})", name, pick), kind: kind.into() });
+        }
+    }
+    out
 }
 
 pub fn run(ctx: &mut Ctx) {
@@ -144,17 +203,25 @@ pub fn run(ctx: &mut Ctx) {
     ctx.rule = "all 3D symbols with good spherical tiles and vertex figures and branching in {1,2,3,4,6} over all enumerated 3D D-sets up to a size bound (own backtracking), each with a renumbered or dual variant and its 2-sheeted covers; the literature corpus; products (euclidean 2D symbol) x (line tiling); proptest-generated renumberings of all of them".into();
     ctx.assume("'undecided' is a legitimate answer except on the known-euclidean corpora");
     ctx.assume("product symbols are known to be euclidean by construction (plane group x line group), not by anything the crate computes");
+    ctx.assume("the quotient of the cubic tiling of E^3 by a group generated by lattice translations and signed coordinate permutations with lattice shifts is a euclidean symbol by definition");
+    ctx.assume("a closed manifold homeomorphic to T^3 (T^3 # S^3 built by tile surgery) is euclidean; S^2 x S^1, RP^3 and connected sums of them are not (flat manifolds are irreducible with infinite group)");
     ctx.assume("simplify iterates over a HashSet: each symbol is evaluated twice in the same process and a difference counts as a violation of invariance");
     crate::props::run_regressions(ctx, "C17");
     ctx.layer("exhaustive");
     let (pool, pool_text) = symbol_pool(t.pick(3, 5), t.pick(4, 6), t.pick(8, 25));
     let mut cases: Vec<TorCase> = vec![];
     for (k, s) in pool.into_iter().enumerate() {
-        cases.push(TorCase { swaps: vec![((k as u32).wrapping_mul(0x9e37_79b9), (k as u32 + 7).wrapping_mul(0x85eb_ca6b))], dual: k % 2 == 1, ds: s, known: String::new() });
+        cases.push(TorCase { swaps: vec![((k as u32).wrapping_mul(0x9e37_79b9), (k as u32 + 7).wrapping_mul(0x85eb_ca6b))], dual: k % 2 == 1, ds: s, known: String::new(), kind: String::new() });
     }
     cases.extend(corpus_cases(t.pick(4, 6)));
+    let (ncub, nman) = (t.pick(150, 3000), t.pick(2, 8));
+    cases.extend(cubic_cases(ncub, t.pick(3, 4)));
+    cases.extend(manifold_cases(nman, true));
     let n = cases.len();
-    ctx.run_par(&SUB_VERDICT, cases.clone(), Some(&format!("{} cases: 3D symbols with spherical links and branching in {{1,2,3,4,6}}: {}; 20 literature symbols; products of all euclidean 2D symbols with <= {} chambers with the 4 line tilings", n, pool_text, t.pick(4, 6))));
+    ctx.run_par(&SUB_VERDICT, cases.clone(), Some(&format!("{} cases: 3D symbols with spherical links and branching in {{1,2,3,4,6}}: {}; 20 literature symbols; products of all euclidean 2D symbols with <= {} chambers with the 4 line tilings; {} quotients of the cubic tiling by space groups (known euclidean); cubical 3-manifolds of known topology (T^3, T^3 # S^3: euclidean; S^2 x S^1, RP^3 and connected sums: not) with {} gluing choices", n, pool_text, t.pick(4, 6), ncub, nman)));
+    ctx.layer("random-cubic-quotients");
+    let max_n = t.pick(3, 4);
+    ctx.run_prop(&SUB_VERDICT, move || cubic_strategy(max_n), t.pick(300, 6_000));
     ctx.layer("random");
     let pool = Arc::new(cases.into_iter().filter(|c| !c.known.is_empty() || c.ds.size >= 2).collect::<Vec<_>>());
     ctx.run_prop(
